@@ -81,6 +81,27 @@ func (c *Ctx) txTypestate(rule string) {
 					}
 				}
 			}
+			// a helper that is handed the transaction and finishes it on every path counts as finisher
+			for _, cs2 := range engine.Calls(f) {
+				g := cs2.Common().StaticCallee()
+				if g == nil || !P.IsOwn(g) || len(g.Blocks) == 0 || cs2.Instr.Parent() != f {
+					continue
+				}
+				for i, a := range cs2.Common().Args {
+					if !isTx(a) || i >= len(g.Params) {
+						continue
+					}
+					switch txFinisherKind(g, g.Params[i]) {
+					case "Rollback":
+						fin[cs2.Instr] = true
+					case "Commit", "mixed":
+						fin[cs2.Instr] = true
+						if call, ok := cs2.Instr.(*ssa.Call); ok {
+							commits = append(commits, call)
+						}
+					}
+				}
+			}
 			// success edge of Begin: the block where err == nil
 			// (a) every return reachable from a use of tx passes a finisher
 			okAll := true
@@ -370,4 +391,55 @@ func (c *Ctx) rowsErr(rule string) {
 		}
 	}
 	R.Min(rule, "rows.Next loops", n, 2)
+}
+
+// txFinisherKind: g finishes the transaction given as parameter p exactly once on every path
+// to a return (and does nothing else with it but call its methods): "Rollback", "Commit",
+// "mixed", or "" if it is not such a helper.
+func txFinisherKind(g *ssa.Function, p *ssa.Parameter) string {
+	fin := map[ssa.Instruction]bool{}
+	kinds := map[string]bool{}
+	for _, cs := range engine.Calls(g) {
+		if cs.Instr.Parent() != g {
+			continue
+		}
+		if isSQLMethod(cs.Common(), "Tx", "Commit", "Rollback") && cs.Common().Args[0] == ssa.Value(p) {
+			fin[cs.Instr] = true
+			kinds[cs.Common().StaticCallee().Name()] = true
+		}
+	}
+	if len(fin) == 0 {
+		return ""
+	}
+	for _, r := range *p.Referrers() {
+		ci, ok := r.(ssa.CallInstruction)
+		if !ok {
+			if _, dbg := r.(*ssa.DebugRef); dbg {
+				continue
+			}
+			return ""
+		}
+		if sc := ci.Common().StaticCallee(); sc == nil || len(ci.Common().Args) == 0 || ci.Common().Args[0] != ssa.Value(p) {
+			return ""
+		}
+	}
+	for _, ret := range engine.Returns(g) {
+		if engine.ReachesAvoiding(g, ret, fin, nil) {
+			return ""
+		}
+	}
+	for a := range fin {
+		for b := range fin {
+			if a != b && engine.InstrReaches(a, b) {
+				return ""
+			}
+		}
+	}
+	switch {
+	case kinds["Commit"] && kinds["Rollback"]:
+		return "mixed"
+	case kinds["Commit"]:
+		return "Commit"
+	}
+	return "Rollback"
 }
